@@ -393,6 +393,17 @@ pub fn structural_targeted(prop: &str, r: &mut Rng, corpus: &Corpus, tier: Tier)
         },
         "C09" => match r.below(12) {
             0 => deep_call_case(r),
+            1 | 2 => {
+                // label / separator neighbourhoods with errors nearby (insert_token index shifting)
+                let k = r.below(1 << 20);
+                let b = crate::diffprops::diff_input("C18", r.next_u64(), k, tier, corpus);
+                let e = error_case(r, corpus);
+                match r.below(3) {
+                    0 => format!("{e} {b}"),
+                    1 => format!("{b} {e}"),
+                    _ => b,
+                }
+            }
             _ => error_case(r, corpus),
         },
         "C10" => match r.below(4) {
